@@ -13,7 +13,7 @@ ROLES = ["data_x", "data_y", "data_xerr", "data_yerr", "model_x", "model_y", "mo
 
 
 def _txt(n):
-    return " ".join(ast.unparse(n).split())
+    return common.src_of(n)
 
 
 def _fit_attrs(expr):
